@@ -30,9 +30,20 @@ LawPrefix(c)   == ~Invalid(c) => \A i \in 0..(c.e - c.s) : Want(c, i + 1) => Wan
 (*        segmented afterwards in the same process (samerec/ids cover both) *)
 (*    samerec: BOOLEAN, ids_distinct: BOOLEAN, ids_repeat: BOOLEAN]         *)
 (***************************************************************************)
-Clauses == {"Rejects", "Windows", "SameRecording", "IdsDistinct", "IdsDeterministic"}
+Clauses == {"Rejects", "Windows", "SameRecording", "IdsDistinct", "IdsDeterministic", "IdFunctionOfBounds", "InsideNonEmpty"}
+LLt(a, b) == LLe(a, b) /\ ~LEq(a, b)
+\* out.stress: the same call at units that are not representable (0.1, 0.3, 1/3); bounds travel as limb numbers and only
+\* order facts that no rounding can excuse are judged: every produced segment starts inside the clip, ends inside it and is
+\* not empty (plus the argument errors, the recording and the distinct identifiers)
+StressOK(c, r) ==
+    /\ Invalid(c) <=> (r.raised = "ValueError")
+    /\ r.raised = "" => /\ r.samerec /\ r.ids_distinct
+                         /\ \A k \in DOMAIN r.segs : /\ LLe(r.cs, r.segs[k][1])
+                                                      /\ LLt(r.segs[k][1], r.segs[k][2])
+                                                      /\ LLe(r.segs[k][2], r.ce)
 Holds(cl, o) ==
     LET c == o.in IN
+    IF cl = "InsideNonEmpty" THEN \A u \in DOMAIN o.out.stress : StressOK(c, o.out.stress[u]) ELSE
     \A u \in DOMAIN o.out.runs :
       LET r == o.out.runs[u] IN
       CASE cl = "Rejects"  -> Invalid(c) <=> (r.raised = "ValueError")
@@ -40,4 +51,8 @@ Holds(cl, o) ==
         [] cl = "SameRecording"    -> r.raised = "" => r.samerec
         [] cl = "IdsDistinct"      -> r.raised = "" => r.ids_distinct
         [] cl = "IdsDeterministic" -> r.raised = "" => r.ids_repeat
+        \* idmap = << <<start, end, id index>> ... >> over this call and a call with duration d+1 on the same parent:
+        \* the identifier is a function of (parent, bounds), so equal bounds have equal identifiers
+        [] cl = "IdFunctionOfBounds" -> \A i, j \in DOMAIN r.idmap :
+                                          (r.idmap[i][1] = r.idmap[j][1] /\ r.idmap[i][2] = r.idmap[j][2]) => r.idmap[i][3] = r.idmap[j][3]
 =============================================================================
